@@ -65,7 +65,9 @@ impl MulSpecImpl<R> for R {
 impl core::ops::Mul<R> for R {
     type Output = R;
     #[verifier::external_body]
-    fn mul(self, rhs: R) -> (r: R) ensures r@ == self@ * rhs@ { unimplemented!() }
+    // both operand orders are stated: Verus leaves a product of two non-literals uninterpreted, and a refactor that commutes a
+    // product in the source must not change what is provable (multiplication of reals is commutative)
+    fn mul(self, rhs: R) -> (r: R) ensures r@ == self@ * rhs@, r@ == rhs@ * self@ { unimplemented!() }
 }
 impl DivSpecImpl<R> for R {
     open spec fn obeys_div_spec() -> bool { false }
@@ -113,7 +115,7 @@ impl MulAssignSpecImpl<R> for R {
 }
 impl core::ops::MulAssign<R> for R {
     #[verifier::external_body]
-    fn mul_assign(&mut self, rhs: R) ensures final(self)@ == old(self)@ * rhs@ { unimplemented!() }
+    fn mul_assign(&mut self, rhs: R) ensures final(self)@ == old(self)@ * rhs@, final(self)@ == rhs@ * old(self)@ { unimplemented!() }
 }
 impl DivAssignSpecImpl<R> for R {
     open spec fn obeys_div_assign_spec() -> bool { false }
